@@ -112,6 +112,9 @@ class NativeMaster:
         self.max_data_wait = 0
         self.use_last = False
         self.rdata_log = []
+        self.cmd_stalls = 0
+        self.wdata_stalls = 0
+        self.wdata_taken = []      # (data, wemask) in the order the beats were taken
         self.strobe_semantics = True   # False for stream-style user ports of front-ends (ready without valid is idle)
 
     def idle(self):
@@ -135,6 +138,8 @@ class NativeMaster:
             cyc = self.cycle
             # ---------------- sample
             if cmd_valid:
+                if not cready:
+                    self.cmd_stalls += 1
                 if cur.offer is None:
                     cur.offer = cyc
                 if cready:
@@ -155,11 +160,14 @@ class NativeMaster:
                     gap = None
                     if i >= len(ops):
                         self.issued_all = True
+            if wvalid and not wready:
+                self.wdata_stalls += 1
             if wready:
                 if wvalid:
                     op = self.wq.popleft()
                     op.done = cyc
                     self.wbeats += 1
+                    self.wdata_taken.append((op.data, op.wemask))
                     if op.accept is not None:
                         self.max_data_wait = max(self.max_data_wait, cyc - op.accept)
                     elif self.strobe_semantics:
@@ -173,6 +181,7 @@ class NativeMaster:
                     self.violations.append(dict(kind="wdata-strobe-without-pending-write", port=self.idx, cycle=cyc))
             if rvalid:
                 self.rbeats += 1
+                self.rdata_log.append(rdata)
                 if self.rq:
                     op, exp = self.rq.popleft()
                     op.done = cyc
